@@ -112,6 +112,7 @@ type listCheck struct {
 	classify   func(viewKey []byte) string // for a key not in full: outside | staged-deleted | nonexistent
 	delsInScan bool                        // a database key inside the bounds / under the prefix is staged-deleted
 	stagedDels bool                        // some database key is staged-deleted
+	unlimited  func() []kvmodel.KV         // re-runs the scan on the implementation with limit -1 (diagnosis only)
 }
 
 // compareList returns "" if got is exactly the model answer, else a symptom built from
@@ -141,12 +142,19 @@ func compareList(c *listCheck, got []kvmodel.KV) string {
 			return "wrong-order"
 		}
 	}
+	// minimal differing condition of a short / shifted answer: does the same scan without
+	// limit give the right keys (then the limit handling is what fails)?
 	tag := func() string {
-		switch {
-		case c.isRange && c.rev && allFF(c.fullEnd):
+		if c.limit >= 0 && c.unlimited != nil {
+			if u := c.unlimited(); sameKVs(u, c.full) || (c.keysOnly && sameKeySeq(u, c.full)) {
+				if c.stagedDels {
+					return ":only-with-limit:staged-deletes-present"
+				}
+				return ":only-with-limit"
+			}
+		}
+		if c.isRange && c.rev && allFF(c.fullEnd) {
 			return ":reverse-and-end-is-all-0xff-or-empty"
-		case c.limit >= 0 && c.stagedDels:
-			return ":limit-and-staged-deletes"
 		}
 		return ""
 	}
@@ -180,6 +188,18 @@ func sameKVs(a, b []kvmodel.KV) bool {
 	}
 	for i := range a {
 		if !bytes.Equal(a[i].Key, b[i].Key) || !bytes.Equal(a[i].Value, b[i].Value) {
+			return false
+		}
+	}
+	return true
+}
+
+func sameKeySeq(a, b []kvmodel.KV) bool {
+	if len(a) != len(b) {
+		return false
+	}
+	for i := range a {
+		if !bytes.Equal(a[i].Key, b[i].Key) {
 			return false
 		}
 	}
